@@ -350,6 +350,13 @@ func c05SynthWAL(seed int64) c05WAL {
 	case 0: // cut inside the last frame
 		if len(fs) > 0 {
 			cut := 1 + rng.Intn(24+ps-1)
+			switch rng.Intn(4) { // boundary cuts on purpose
+			case 0:
+				cut = ps // the frame header is complete, not one byte of the page
+				w.Tags = append(w.Tags, "truncated-at-header-end")
+			case 1:
+				cut = ps - 1
+			}
 			w.WAL = w.WAL[:len(w.WAL)-cut]
 			w.Tags = append(w.Tags, "truncated")
 		}
@@ -372,6 +379,37 @@ func c05SynthWAL(seed int64) c05WAL {
 		}
 	}
 	w.Tags = append(w.Tags, fmt.Sprintf("synth-ps=%d", ps))
+	return w
+}
+
+// c05CorpusWAL: hand-picked files, run before the generated ones.
+func c05CorpusWAL(i int64) c05WAL {
+	const ps = 512
+	rng := rand.New(rand.NewSource(77 + i))
+	tmpl := c05Template(ps)
+	pg := func() []byte {
+		b := make([]byte, ps)
+		rng.Read(b)
+		return b
+	}
+	w := c05WAL{Kind: "corpus", Seed: i}
+	w.Base = append(append(append([]byte{}, tmpl...), pg()...), pg()...)
+	salt := [2]uint32{0x01020304, 0x0a0b0c0d}
+	switch i {
+	case 0:
+		// tx1 commits page 2; tx2 rewrites page 2 and its commit frame is cut right behind the frame header
+		b := c05Build(ps, 0x377f0682, 0, salt, []c05F{{Pgno: 2, Commit: 3, Data: pg()}, {Pgno: 2, Data: pg()}, {Pgno: 3, Commit: 3, Data: pg()}})
+		w.WAL = b[:len(b)-ps]
+		w.Tags = []string{"corpus:commit-frame-cut-at-header-end", "truncated", "truncated-at-header-end"}
+	case 1:
+		// overwritten pages, growth to 6 pages, shrink to 2, then frames of an earlier generation
+		w.WAL = c05Build(ps, 0x377f0682, 1, salt, []c05F{{Pgno: 2, Data: pg()}, {Pgno: 5, Data: pg()}, {Pgno: 6, Commit: 6, Data: pg()},
+			{Pgno: 2, Data: pg()}, {Pgno: 2, Commit: 2, Data: pg()}, {Pgno: 4, Commit: 9, Data: pg(), Stale: 1}, {Pgno: 2, Data: pg(), Stale: 1}})
+		w.Tags = []string{"corpus:grow-shrink-stale-tail", "stale-salt-tail"}
+	default:
+		w.WAL = c05Build(ps, 0x377f0683, 2, salt, nil)
+		w.Tags = []string{"corpus:header-only"}
+	}
 	return w
 }
 
@@ -749,6 +787,30 @@ func c05Run(w *vWriter, wf c05WAL, k int64, full bool) {
 		}
 	}
 
+	// ---- a file cut inside its last frame (and otherwise clean) read in salt-only mode: the cut frame
+	// passes the salt test, so it is either the open end of a transaction or a selected frame whose
+	// page cannot be delivered; both must surface as an error, never as a shorter "successful" WAL
+	if P.HdrOK && !full && boundary {
+		cutAt := -1
+		clean := true
+		for i, sl := range P.Slots {
+			if !sl.SaltOK {
+				break
+			}
+			if !sl.DataOK {
+				cutAt = i
+				break
+			}
+			if !sl.CkOK {
+				clean = false
+			}
+		}
+		if clean && cutAt >= 0 && int64(cutAt) >= k && resKind == "ok" {
+			// the property-level statement of this failure takes precedence over the consistency checks above
+			oracle, sig = fmt.Sprintf("frame %d has a complete header and an incomplete page; compaction from %d reported success and emitted %d of %d selected frames", cutAt, k, len(c05Parse(compacted).Slots), len(outIdx)), "C05:truncated-frame-silently-dropped"
+		}
+	}
+
 	// ---- non-trivial rule: >= 2 transactions, a page written twice, and a size change or an invalid tail
 	ntx, twice, sizeChange := 0, false, false
 	seen := map[uint32]bool{}
@@ -832,6 +894,9 @@ func TestVerif_C05(t *testing.T) {
 		if kind == "sqlite" {
 			return c05SQLiteWAL(seed)
 		}
+		if kind == "corpus" {
+			return c05CorpusWAL(seed)
+		}
 		return c05SynthWAL(seed)
 	}
 	if raw := vReplayInput(); raw != nil {
@@ -847,6 +912,9 @@ func TestVerif_C05(t *testing.T) {
 	nSynth, nSQLite := vN(130, 4000), vN(22, 800)
 	if s := os.Getenv("VERIF_N"); s != "" && strings.TrimSpace(s) != "" {
 		nSQLite = nSynth / 5
+	}
+	for i := int64(0); i < 3; i++ {
+		c05All(w, gen("corpus", i), rng)
 	}
 	// SQLite-made files (large cases) are spread evenly among the synthetic ones
 	every := 1
